@@ -211,4 +211,15 @@ def equal(a, b, case=None):
         return t[0] == "blk" and len(t) == 9 and sorted(map(int, t[1:3])) == sorted(map(int, b.split(" ")[1:3]))
     if case and case.startswith("Q ") and "nan" in case.split(" ")[2:]:
         return a.split(" ")[0] == b.split(" ")[0] == "px"
+    # the same for the cases that give the pixel by binary32 bit patterns (`U`, `W`): with a NaN channel only 'a pixel
+    # was produced' is compared (harmless change C15hc: NaN quantised to 0 instead of to the maximum)
+    if case and case.split(" ")[0] in ("U", "W"):
+        def is_nan(t):
+            try:
+                v = int(t)
+            except ValueError:
+                return False
+            return (v >> 23) & 0xFF == 0xFF and v & 0x7FFFFF != 0
+        if any(is_nan(t) for t in case.split(" ")[2:]):
+            return a.split(" ")[0] == b.split(" ")[0]
     return False
